@@ -163,7 +163,10 @@ def build (cfg : Cfg) : TyDef → String → Res Ty
   | .time, tag =>
       match regLoad cfg .time tag with
       | some c => .ok c
-      | none => .ok (.struct "Time" [])     -- no exact hit: built as a struct with no exported fields
+      | none =>
+        -- a struct type with its own codec under "" but none under this tag: error
+        if tag != "" && (regLoad cfg .time "").isSome then .err
+        else .ok (.struct "Time" [])
   | .ext n, tag =>
       match regLoad cfg (.ext n) tag with
       | some c => .ok c
@@ -195,6 +198,7 @@ def build (cfg : Cfg) : TyDef → String → Res Ty
       match customLoad cfg (.struct name fs) tag with
       | some c => .ok c
       | none =>
+        if tag != "" && (customLoad cfg (.struct name fs) "").isSome then .err else
         match buildFields cfg fs with
         | .ok cfs => if hasDup (cfs.map (·.1)) then .err else .ok (.struct name cfs)
         | .err => .err | .panic => .panic | .hang => .hang
